@@ -351,6 +351,12 @@ class Run:
                 return True
         return False
 
+    def broken_tie(self, e):
+        """the proof / translator / build no longer checks: the proof-level keys are withdrawn from the evidence"""
+        for k in ("obligations", "discharged"):
+            self.cov.pop(k, None)
+        self.cov["broken_tie"] = {"kind": e.kind, "name": e.name, "detail": e.detail[-1200:]}
+
     def violation(self, replay, no_input=False):
         replay = dict(replay)
         replay["property"] = self.pid
